@@ -114,6 +114,7 @@ class MockPg:
         self.named_names = []
         self.closed = False
         self.last_delivered = None
+        self.slow = False                    # the statement being answered is one the backend is slow on (pg_sleep)
         self.params = dict(PARAM_DEFAULTS)   # the reported (GUC_REPORT) session parameters pgcat tracks
         self.stmts = {}                      # extended protocol: statement name -> SQL text (None when not concrete)
         self.portals = {}                    # portal name -> statement name
@@ -173,6 +174,8 @@ class MockPg:
                'client_pos': env.client_stream.pos if env else 0, 'client_done': env.client_done() if env else False}
         self.cur = req
         self.nreq += 1
+        cm_ = conc(m)
+        self.slow = bool(cm_ and b'pg_sleep' in cm_)
         self.requests.append(req)
         body = m[5:]
         if self.closed:
@@ -478,7 +481,7 @@ class Backend:
 
 class HandleEnv:
     def __init__(self, ip, prog, backends, client_bytes, pool_over=None, client_over=None, settings_over=None, paused=False,
-                 pending_at=(), on_pending=None, boundaries=()):
+                 pending_at=(), on_pending=None, boundaries=(), idle_timeout_ms=0, statement_timeout_ms=0):
         self.ip, self.prog = ip, prog
         if backends and isinstance(backends[0], (list, tuple)):
             shards = [list(x) for x in backends]
@@ -528,7 +531,27 @@ class HandleEnv:
             b.env_ref.append(self)
         ip.env['frozen_clock'] = FROZEN      # no time passes: no health checks, no idle / ban expiry
         ip.env['no_timeouts'] = True         # the peers answer within every deadline
+        self.idle_timeout_ms = idle_timeout_ms
+        if idle_timeout_ms:
+            # ... except that a client inside a transaction may stay silent longer than idle_client_in_transaction_timeout:
+            # at every read inside the transaction loop the deadline may or may not fire (solver's choice)
+            ip.env.setdefault('timeout_only_ns', {})[idle_timeout_ms * 1000000] = None
+            ip.env['on_timeout_elapsed'] = self._timeout_elapsed
+        self.statement_timeout_ms = statement_timeout_ms
+        if statement_timeout_ms:
+            # ... and a statement the backend is slow on (pg_sleep) may or may not be answered within statement_timeout
+            usr = getf(prog, self.settings, 'PoolSettings', 'user')
+            setf(prog, usr, 'User', 'statement_timeout', BV(64, statement_timeout_ms))
+            ip.env.setdefault('timeout_only_ns', {})[statement_timeout_ms * 1000000] = lambda: any(b.held and b.pg.slow for b in self.backends)
+            ip.env['on_timeout_elapsed'] = self._timeout_elapsed
         self._install()
+
+    def _timeout_elapsed(self, dur):
+        ns = dur.fields[0].v
+        if self.idle_timeout_ms and ns == self.idle_timeout_ms * 1000000:
+            self.events.append(('idle_timeout', self.client_stream.pos))
+        else:
+            self.events.append(('statement_timeout', self.client_stream.pos))
 
     def _client_read(self, ip, st):
         """pgcat starts reading the client's next message: record which server connections the session holds at that moment and
@@ -590,7 +613,7 @@ class HandleEnv:
         def get_pool(c, dbp, up):
             return some(c.ip, env.pool)
         ip.overrides.append((re.compile(r'^(?:pool::)?get_pool$'), get_pool))
-        ip.overrides.append((re.compile(r'^(?:config::)?get_idle_client_in_transaction_timeout$'), lambda c: BV(64, 0)))
+        ip.overrides.append((re.compile(r'^(?:config::)?get_idle_client_in_transaction_timeout$'), lambda c: BV(64, env.idle_timeout_ms)))
         ip.overrides.append((re.compile(r'^(?:config::)?get_config$'), lambda c: env.config(c.ip)))
         # DNS-cache based invalidation disabled (CachedResolver::enabled() == false)
         ip.overrides.append((re.compile(r'^<(?:dns_cache::)?CachedResolver as (?:std::default::)?Default>::default$'), lambda c: Opaque('CachedResolver', 'resolver')))
@@ -939,7 +962,7 @@ def judge(data, script, dec, expect_forward=None, cache_on=False, denied=None, e
         cm = conc(m)
         if cm is not None and cm[:1] == b'Q' and POOLER_SQL.match(cm[5:-1]):
             r['origin'] = 'pooler'
-            if cm[5:-1] == b'ROLLBACK' and not r['client_done']:
+            if cm[5:-1] == b'ROLLBACK' and not r['client_done'] and not any(e[0] == 'idle_timeout' for e in data['events']):
                 V.append(('C01', 'H/pooler-rollback-mid-session', 'the pooler rolls the client\'s transaction back on backend %d while the client is still connected' % bi))
             continue
         if cache_on and cm is not None and cm[:1] in (b'P', b'C'):
@@ -990,7 +1013,8 @@ def judge(data, script, dec, expect_forward=None, cache_on=False, denied=None, e
                   (show(m[:40]), show(expected[xi][:40]) if xi < len(expected) else 'none outstanding')))
     if rest:
         V.append(('C03', 'H/client-received-partial', 'a partial message was written to the client: %s' % show(rest[:40])))
-    if xi < len(expected) and outcome[0] != 'panic':
+    if xi < len(expected) and outcome[0] != 'panic' and not any(e[0] == 'statement_timeout' for e in data['events']):
+        # (after a statement timeout the pooler answers with its own error instead of the late reply: documented difference)
         V.append(('C03', 'H/reply-not-delivered', 'reply %s to the client\'s own request never reached the client (%d of %d delivered)' % (show(expected[xi][:40]), xi, len(expected))))
     return V
 
